@@ -1020,10 +1020,15 @@ class eigenbasis_of(basis_context_manager):
     def __init__(self, operator):
         super().__init__()
         self.op = operator
-        self.manager.store_current_basis_operator(self.op)
         
         
     def __enter__(self):
+
+        # the operator defining the basis is known to the manager while 
+        # the context is in effect; the operator of an enclosing context 
+        # (if any) is put back when this context is left
+        self.op_backup = self.manager.current_basis_operator
+        self.manager.store_current_basis_operator(self.op)
 
         self.manager._in_eigenbasis_of_context = True
         
@@ -1086,7 +1091,7 @@ class eigenbasis_of(basis_context_manager):
                 if op not in ops_above:
                     self.manager.register_with_basis(nb,op)
             
-        self.manager.remove_current_basis_operator()
+        self.manager.store_current_basis_operator(self.op_backup)
             
         del self.manager.basis_registered[bb]
 
